@@ -25,11 +25,15 @@ CHECK_DEADLOCK FALSE
 """
 # a template version is recognisable from what a 12-octet data set decodes to
 VERSION_SPECS = {1: [[8, 4]], 2: [[7, 2], [4, 1]]}
+# options templates with the same counts and the same option field: only the scope field differs (element, length)
+SCOPE_SPECS = {3: [[10, 2]], 4: [[7, 2]], 5: [[7, 1]]}
+for _v in SCOPE_SPECS:
+    VERSION_SPECS[_v] = [[4, 1]]
 BODY = [10, 0, 0, 1, 0, 80, 6, 9, 192, 168, 1, 2]
 
 
 def expected_recs(v):
-    specs = VERSION_SPECS[v]
+    specs = SCOPE_SPECS.get(v, []) + VERSION_SPECS[v]
     w = sum(l for _, l in specs)
     out, p = [], 0
     while len(BODY) - p >= w:
@@ -43,10 +47,21 @@ def expected_recs(v):
 
 def tpl_msg(proto, tid, v):
     specs = VERSION_SPECS[v]
-    rec = u16(tid) + u16(len(specs)) + [o for e, l in specs for o in u16(e) + u16(l)]
+    scope = SCOPE_SPECS.get(v, [])
+    enc = lambda ss: [o for e, l in ss for o in u16(e) + u16(l)]
     if proto == "ipfix":
-        body = u16(2) + u16(4 + len(rec)) + rec
+        if scope:
+            rec = u16(tid) + u16(len(scope) + len(specs)) + u16(len(scope)) + enc(scope) + enc(specs)
+            body = u16(3) + u16(4 + len(rec)) + rec
+        else:
+            rec = u16(tid) + u16(len(specs)) + enc(specs)
+            body = u16(2) + u16(4 + len(rec)) + rec
         return [0, 10] + u16(16 + len(body)) + [0] * 12 + body
+    if scope:
+        rec = u16(tid) + u16(4 * len(scope)) + u16(4 * len(specs)) + enc(scope) + enc(specs)
+        pad = (-len(rec)) % 4
+        return [0, 9, 0, 1] + [0] * 16 + u16(1) + u16(4 + len(rec) + pad) + rec + [0] * pad
+    rec = u16(tid) + u16(len(specs)) + enc(specs)
     return [0, 9, 0, 1] + [0] * 16 + u16(0) + u16(4 + len(rec)) + rec
 
 
@@ -201,6 +216,11 @@ def check(ctx):
                        files={"run3.cfg": (CFG % dict(exps='"ea"', peers="FALSE", dev="FALSE", ops=6 if thorough else 5, emit="TRUE"))
                               .replace("Ids = {256, 257}", "Ids = {256}")})
     hists_one = [c["hist"] for c in r3.cases if len(c["hist"]) >= 3 and any(o["op"] == "data" for o in c["hist"])]
+    # options templates re-announced with another scope field only (same counts, same option fields)
+    r4 = ctx.tlc_model("TemplateCacheMC", "run4.cfg", want_cases=True,
+                       files={"run4.cfg": (CFG % dict(exps='"ea", "eb"', peers="FALSE", dev="FALSE", ops=4 if thorough else 3, emit="TRUE"))
+                              .replace("Ids = {256, 257}", "Ids = {257}").replace("Versions = {1, 2}", "Versions = {1, 3, 4, 5}")})
+    hists_scope = [c["hist"] for c in r4.cases if any(o["op"] == "data" for o in c["hist"])]
     hists = [c["hist"] for c in r1.cases if c["hist"]]
     hists_peer = [c["hist"] for c in r2.cases if c["hist"] and any(o["op"].startswith("peer") for o in c["hist"])]
     ctx.note("TLC emitted %d + %d histories" % (len(hists), len(hists_peer)))
@@ -215,6 +235,9 @@ def check(ctx):
             for addr in ((a4, a16) if (thorough or hi % 4 == 0) else (a4,)):
                 jobs.append(job_of(proto, h, addr))
                 meta.append((h, addr))
+        for h in hists_scope:
+            jobs.append(job_of(proto, h, a4))
+            meta.append((h, a4))
         if proto == "ipfix":
             for h in hists_peer:
                 jobs.append(job_of(proto, h, a4))
@@ -225,7 +248,7 @@ def check(ctx):
         ctx.traces_validated += len(jobs)
         # the same histories with consecutive operations of one exporter merged into one message
         mjobs, mmeta = [], []
-        for h in hists + (hists_peer if proto == "ipfix" else []):
+        for h in hists + hists_scope + (hists_peer if proto == "ipfix" else []):
             if any(h[n]["e"] == h[n + 1]["e"] and h[n]["op"] in ("announce", "data") and h[n + 1]["op"] in ("announce", "data")
                    for n in range(len(h) - 1)):
                 job, groups = job_merged(proto, h, a4)
